@@ -16,3 +16,5 @@ python3 "$(dirname "$0")/../vx/bounded.py" scalars quick >/dev/null 2>&1 || true
 python3 "$(dirname "$0")/../vx/bounded.py" extmerge quick >/dev/null 2>&1 || true
 python3 "$(dirname "$0")/../vx/bounded.py" loaderseq quick >/dev/null 2>&1 || true
 python3 "$(dirname "$0")/../vx/bounded.py" serverschema quick >/dev/null 2>&1 || true
+python3 "$(dirname "$0")/../vx/bounded.py" exports quick >/dev/null 2>&1 || true
+python3 "$(dirname "$0")/../vx/bounded.py" introspect quick >/dev/null 2>&1 || true
